@@ -169,6 +169,7 @@ fn probe_inner(unit: &str) {
                                 let (x1, x2, y1, y2) = (ax[i], ax[i + 1], data[[i, j]], data[[i + 1, j]]);
                                 let want = (y2 - y1) / (x2 - x1) * (q - x1) + y1;
                                 let tol = 64.0 * f64::EPSILON * (y1.abs().max(y2.abs()).max(want.abs()) + 1e-300);
+                                if !want.is_finite() || !tol.is_finite() || q.abs() > 1e150 { continue; }   // overflow of the exact value: outside the property
                                 if !((got[j] - want).abs() <= tol) {
                                     return out(true, unit, format!("axis={ax:?} data column {j}={:?} extrapolate={extrap} query={q:e}", data.column(j).to_vec()), format!("{want:e} (line through ({x1},{y1}) and ({x2},{y2}))"), format!("{:e}", got[j]));
                                 }
@@ -201,6 +202,7 @@ fn probe_inner(unit: &str) {
                         let (z11, z12, z21, z22) = (data[[i, k]], data[[i, k + 1]], data[[i + 1, k]], data[[i + 1, k + 1]]);
                         let want = (z11 * (x2 - qx) * (y2 - qy) + z21 * (qx - x1) * (y2 - qy) + z12 * (x2 - qx) * (qy - y1) + z22 * (qx - x1) * (qy - y1)) / ((x2 - x1) * (y2 - y1));
                         let scale = z11.abs().max(z12.abs()).max(z21.abs()).max(z22.abs()).max(want.abs()) * (1.0 + ((qx - x1) / (x2 - x1)).abs()) * (1.0 + ((qy - y1) / (y2 - y1)).abs());
+                        if !want.is_finite() || !scale.is_finite() || qx.abs() > 1e150 || qy.abs() > 1e150 { continue; }
                         if !((got - want).abs() <= 256.0 * f64::EPSILON * (scale + 1e-300)) {
                             return out(true, unit, format!("x={ax:?} y={ay:?} data={:?} query=({qx:e},{qy:e}) extrapolate={extrap}", data), format!("{want:e} (bilinear blend of the cell ({i},{k}))"), format!("{got:e}"));
                         }
